@@ -38,6 +38,7 @@ type lin struct {
 	n   int      // coefficient of len(x): 0 or 1 (or -1)
 	c   int64
 	ok  bool
+	neg bool // the loop counter enters with coefficient -1 (len - P + c)
 }
 
 type covAnalysis struct {
@@ -85,28 +86,28 @@ func (a *covAnalysis) eval(v ssa.Value, depth int) lin {
 			if l.phi != nil && r.phi != nil {
 				return lin{}
 			}
-			p := l.phi
+			p, ng := l.phi, l.neg
 			if p == nil {
-				p = r.phi
+				p, ng = r.phi, r.neg
 			}
-			return lin{phi: p, n: l.n + r.n, c: l.c + r.c, ok: true}
+			return lin{phi: p, n: l.n + r.n, c: l.c + r.c, ok: true, neg: ng}
 		case token.SUB:
-			if r.phi != nil && l.phi != nil && r.phi == l.phi {
-				return lin{n: l.n - r.n, c: l.c - r.c, ok: true}
+			if r.phi != nil && l.phi != nil {
+				if r.phi == l.phi && r.neg == l.neg {
+					return lin{n: l.n - r.n, c: l.c - r.c, ok: true}
+				}
+				return lin{}
 			}
 			if r.phi != nil {
-				// len - P + c : keep as "negative phi" by flagging through n = l.n - r.n and a marker
-				return lin{phi: r.phi, n: l.n - r.n, c: l.c - r.c, ok: true}.neg()
+				// len - P + c: the counter enters negatively
+				return lin{phi: r.phi, n: l.n - r.n, c: l.c - r.c, ok: true, neg: !r.neg}
 			}
-			return lin{phi: l.phi, n: l.n - r.n, c: l.c - r.c, ok: true}
+			return lin{phi: l.phi, n: l.n - r.n, c: l.c - r.c, ok: true, neg: l.neg}
 		}
 	}
 	return lin{}
 }
 
-// neg marks a form whose loop counter enters negatively (len - P + c); encoded by n >= 1 and phi set
-// with the convention that such forms are only produced by SUB above and consumed by guards/switch tags.
-func (l lin) neg() lin { l.c = l.c; return lin{phi: l.phi, n: l.n, c: l.c, ok: true} }
 
 type covLoop struct {
 	phi      *ssa.Phi
@@ -128,18 +129,36 @@ func (a *covAnalysis) remainingAtLeast(cond ssa.Value, phi *ssa.Phi) (g int64, s
 	if !l.ok || !r.ok {
 		return 0, 0, false
 	}
-	// bring to  (P + cl) op (len + cr)   or the mirror
 	op := bo.Op
+	mirror := map[token.Token]token.Token{token.LSS: token.GTR, token.GTR: token.LSS, token.LEQ: token.GEQ, token.GEQ: token.LEQ}
+	// form (len - P + cl) op cr, or the mirror: "n-i >= 4"
+	if r.neg && r.phi == phi && r.n == 1 && l.phi == nil && l.n == 0 {
+		l, r = r, l
+		op = mirror[op]
+	}
+	if l.neg && l.phi == phi && l.n == 1 && r.phi == nil && r.n == 0 {
+		d := r.c - l.c
+		switch op {
+		case token.GEQ:
+			return d, 0, true
+		case token.GTR:
+			return d + 1, 0, true
+		case token.LSS:
+			return d, 1, true
+		case token.LEQ:
+			return d + 1, 1, true
+		}
+		return 0, 0, false
+	}
+	if l.neg || r.neg {
+		return 0, 0, false
+	}
+	// bring to  (P + cl) op (len + cr)   or the mirror
 	if l.n == 1 && l.phi == nil && r.phi == phi && r.n == 0 {
 		l, r = r, l
 		op = map[token.Token]token.Token{token.LSS: token.GTR, token.GTR: token.LSS, token.LEQ: token.GEQ, token.GEQ: token.LEQ}[op]
 	}
 	if !(l.phi == phi && l.n == 0 && r.phi == nil && r.n == 1) {
-		// form (len - P + c) op const
-		if l.phi == phi && l.n == 1 && r.phi == nil && r.n == 0 {
-			// eval() of len - P loses the sign; handled by callers that build it explicitly
-			return 0, 0, false
-		}
 		return 0, 0, false
 	}
 	// P + cl op len + cr   <=>   len - P  op'  cl - cr
@@ -180,7 +199,7 @@ func (a *covAnalysis) reads(blocks map[*ssa.BasicBlock]bool, phi *ssa.Phi) (kx, 
 				continue
 			}
 			l := a.eval(ia.Index, 0)
-			if !l.ok || l.n != 0 || l.phi != phi {
+			if !l.ok || l.n != 0 || l.phi != phi || l.neg {
 				return nil, nil, "an index of " + p.Name() + " is not the loop counter plus a constant"
 			}
 			if p == a.x {
@@ -274,7 +293,7 @@ func sliceCoverageXY(f *ssa.Function, px, py *ssa.Parameter) (bool, string) {
 			for i := 0; i < 2; i++ {
 				back := phi.Edges[i]
 				l := a.eval(back, 0)
-				if l.ok && l.phi == phi && l.n == 0 && l.c > 0 && b.Dominates(b.Preds[i]) {
+				if l.ok && !l.neg && l.phi == phi && l.n == 0 && l.c > 0 && b.Dominates(b.Preds[i]) {
 					// is it used to index a parameter (directly or +k)?
 					loops = append(loops, &covLoop{phi: phi, header: b, init: phi.Edges[1-i], step: l.c})
 				}
@@ -417,7 +436,7 @@ func (a *covAnalysis) tailReads(from *ssa.BasicBlock, phi *ssa.Phi, off, remaini
 					continue
 				}
 				l := a.eval(ia.Index, 0)
-				if !l.ok || l.phi != phi || l.n != 0 {
+				if !l.ok || l.neg || l.phi != phi || l.n != 0 {
 					return nil, "an index in the tail is not the loop counter plus a constant"
 				}
 				side := "x"
@@ -451,7 +470,7 @@ func (a *covAnalysis) tailReads(from *ssa.BasicBlock, phi *ssa.Phi, off, remaini
 				return nil, "a branch in the tail does not test len - counter"
 			}
 			r := a.eval(sub.Y, 0)
-			if !r.ok || r.phi != phi || r.n != 0 {
+			if !r.ok || r.neg || r.phi != phi || r.n != 0 {
 				return nil, "a branch in the tail does not test len - counter"
 			}
 			val := rem - r.c
